@@ -149,8 +149,11 @@ def inject(text, kind, rng):
     return None
 
 
-def check_structure(rep, root, elements, diags, case, what):
-    """Clauses 1-3 for every diagnostic; returns the list of resolved elements (None where unresolved)."""
+def check_structure(rep, root, elements, diags, case, what, dtd_invalid=False):
+    """Clauses 1-3 for every diagnostic; returns the list of resolved elements (None where unresolved).
+    dtd_invalid: the input was damaged structurally (duplicated / inserted / renamed elements), so it may contain two
+    <declaration>, <system>, ... siblings; a path step without index cannot single one of them out, and such inputs
+    are not models in the sense of the property: an ambiguous path is then counted as an observation only."""
     resolved = []
     for d in diags:
         path = d["path"]
@@ -161,6 +164,10 @@ def check_structure(rep, root, elements, diags, case, what):
                 found = root.findall("." + rest) if rest else [root]
             except SyntaxError:
                 found = []
+            if len(found) > 1 and dtd_invalid:
+                rep.extra["ambiguous_paths_in_structurally_damaged_inputs"] = rep.extra.get("ambiguous_paths_in_structurally_damaged_inputs", 0) + 1
+                resolved.append(None)
+                continue
             if len(found) != 1:
                 rep.violation("C06:path-selects-%d-elements:%s" % (min(len(found), 2), re.sub(r"\[\d+\]", "[]", path)),
                               "%s: diagnostic %r has path %r which selects %d elements" % (what, d["msg"], path, len(found)), case)
@@ -279,7 +286,8 @@ def run(rep, tier, seed):
             continue        # not well-formed: no independent DOM to compare with
         n_diag += len(diags)
         rep.observe(("hostile", h["tag"], tuple(sorted(d["msg"] for d in diags))[:3]))
-        check_structure(rep, root, list(root.iter()), diags, h["case"], "hostile input (%s)" % h["tag"])
+        check_structure(rep, root, list(root.iter()), diags, h["case"], "hostile input (%s)" % h["tag"],
+                        dtd_invalid=h["tag"].startswith("xml:"))
     rep.sample({"fault": items[0]["fault"], "block": items[0]["block"]["kind"], "expected_identifier_range": items[0]["idpos"],
                 "xml": items[0]["xml"][:900]})
     rep.rule = ("one fault (undeclared identifier, dropped operand, unbalanced bracket, stray token, type error, side effect "
